@@ -148,18 +148,25 @@ theorem classify_priority (frames : List Frame) (s : CloneSite) :
     inside a wrapper, its category is on and the test exemption does not apply -/
 theorem blocking_reported_iff (c : BCfg) (frames : List Frame) (parts : List Str) (p : BlockPattern) :
     blockingSpec c frames parts = some p ↔
-      insideAsyncFn frames = true ∧ classifyPath parts = some p ∧ specInsideWrapper frames = false ∧ blockEnabled c p = true ∧
-      ¬ (specInsideTest frames = true ∧ c.allowInTests = true) := by
+      insideAsyncFn frames = true ∧ isShadowed c.shadowed parts = false ∧ classifyPath parts = some p ∧ specInsideWrapper frames = false ∧
+      blockEnabled c p = true ∧ ¬ (specInsideTest frames = true ∧ c.allowInTests = true) := by
   unfold blockingSpec
   cases insideAsyncFn frames
   · simp
-  · cases hc : classifyPath parts with
-    | none => simp
-    | some q =>
-      by_cases hq : q = p
-      · subst hq
-        cases specInsideWrapper frames <;> cases he : blockEnabled c q <;> cases specInsideTest frames <;> cases c.allowInTests <;> simp [he]
-      · cases specInsideWrapper frames <;> cases he : blockEnabled c q <;> cases specInsideTest frames <;> cases c.allowInTests <;> simp [hq, he]
+  · cases hs : isShadowed c.shadowed parts
+    · cases hc : classifyPath parts with
+      | none => simp
+      | some q =>
+        by_cases hq : q = p
+        · subst hq
+          cases specInsideWrapper frames <;> cases he : blockEnabled c q <;> cases specInsideTest frames <;> cases c.allowInTests <;> simp [he]
+        · cases specInsideWrapper frames <;> cases he : blockEnabled c q <;> cases specInsideTest frames <;> cases c.allowInTests <;> simp [hq, he]
+    · simp
+
+/-- a short path whose first segment the file imports from another crate is never reported -/
+theorem shadowed_never_reported (c : BCfg) (frames : List Frame) (parts : List Str) (h : isShadowed c.shadowed parts = true) :
+    blockingReported c frames parts = none := by
+  unfold blockingReported; simp [h]
 
 /-- the blocking API tables regenerated from /repo classify the documented calls as documented -/
 theorem blocking_tables :
@@ -226,10 +233,12 @@ theorem blocking_switch (c : BCfg) (frames : List Frame) (parts : List Str) :
   unfold blockingReported
   cases insideAsyncFn frames
   · simp
-  · cases classifyPath parts with
-    | none => simp
-    | some p =>
-      cases p <;> simp [blockEnabled] <;> (cases insideWrapper frames <;> cases isInsideTest frames <;> cases c.allowInTests <;> cases c.detectFs <;> cases c.detectSleep <;> cases c.detectNet <;> simp <;> decide)
+  · cases isShadowed c.shadowed parts
+    · cases classifyPath parts with
+      | none => simp
+      | some p =>
+        cases p <;> simp [blockEnabled] <;> (cases insideWrapper frames <;> cases isInsideTest frames <;> cases c.allowInTests <;> cases c.detectFs <;> cases c.detectSleep <;> cases c.detectNet <;> simp <;> decide)
+    · simp
 
 /-! ## Whole files: every call is judged exactly once -/
 
@@ -336,8 +345,8 @@ theorem scan_meets_spec_partial (cfg : Cfg) (n : Node) (hm : macroFree n = true)
 /-- finding F17c: a call written inside macro arguments is never reported, whatever the settings -/
 theorem F17c_witness :
     let t := Node.mk 0 (some (.fn [] [] false)) none (.cons (.mk 1 (some .macroArgs) none (.cons (.mk 2 none (some (.unwrap .unwrap)) .nil) .nil)) .nil)
-    scan ⟨⟨false, false⟩, ⟨false, true, true, true⟩, ⟨false, true, true, true⟩⟩ [] t = [] ∧
-    (allSites [] t).filterMap (fun x => (specVerdict ⟨⟨false, false⟩, ⟨false, true, true, true⟩, ⟨false, true, true, true⟩⟩ x.2.1 x.2.2).map (fun r => (x.1, r))) = [(2, .unwrapCall)] := by
+    scan ⟨⟨false, false⟩, ⟨false, true, true, true⟩, ⟨false, true, true, true, []⟩⟩ [] t = [] ∧
+    (allSites [] t).filterMap (fun x => (specVerdict ⟨⟨false, false⟩, ⟨false, true, true, true⟩, ⟨false, true, true, true, []⟩⟩ x.2.1 x.2.2).map (fun r => (x.1, r))) = [(2, .unwrapCall)] := by
   decide +kernel
 
 /-! ## Non-vacuity -/
@@ -357,7 +366,7 @@ def demoTree : Node :=
         (.mk 14 none (some (.clone ⟨false, true, false⟩)) .nil) .nil)) .nil))
       (.cons (.mk 15 none (some (.path ["thread".toList, "sleep".toList])) .nil) .nil)))) .nil)))
 
-def allOn (t : Bool) : Cfg := ⟨⟨t, false⟩, ⟨t, true, true, true⟩, ⟨t, true, true, true⟩⟩
+def allOn (t : Bool) : Cfg := ⟨⟨t, false⟩, ⟨t, true, true, true⟩, ⟨t, true, true, true, []⟩⟩
 
 example : scan (allOn true) [] demoTree = [(13, .cloneChain), (14, .unnecessaryClone), (15, .sleepInAsync)] := by decide +kernel
 example : scan (allOn false) [] demoTree =
